@@ -285,6 +285,59 @@ pub fn inverse_structured(ctx: &Ctx, rep: &mut Report) {
         rep.count("inverse_sizes", 1);
     });
     rep.merge(r);
+    // TOWER BINOMIALS: x^n + 1 splits level by level into x^t - r (r^(n/t) = -1). The polynomial
+    // x^e (x^t - r) vanishes on the whole sub-block of the spectrum that belongs to x^t = r and
+    // reduces to the single term 2r x^e on the sibling block x^t = -r: inside the inverse
+    // transform, at the stage that joins the two blocks, one block is zero and the other holds
+    // one non-zero entry (the last one for e = t-1, the first for e = 0). Shortcuts of a stage for
+    // "empty" or "constant" groups meet exactly these inputs; neither sparse spectra nor sparse
+    // polynomials produce them.
+    let sizes2: Vec<usize> = (2..=10).map(|k| 1usize << k).collect();
+    let r = par_for(sizes2.len(), ncpu(), |si, rep| {
+        let n = sizes2[si];
+        let psi = spec::find_psi(n);
+        let mut rng = rng_for(ctx.seed, &format!("c11-tower-{}", n));
+        let mut t = 1usize;
+        while t < n {
+            // all roots of level t: psi^(t k), k odd (at most 16 per level at large sizes)
+            let nroots = n / t;
+            let step = (nroots / 16).max(1);
+            for ri in (0..nroots).step_by(step) {
+                let k = (2 * ri + 1) as i64;
+                let r_ = spec::powm(psi, (t as i64) * k);
+                for e in [t - 1, 0, t / 2, rng.gen_range(0..t)] {
+                    let c = [1i64, Q - 1, rng.gen_range(1..Q)][rng.gen_range(0..3)];
+                    // p = c x^e (x^t - r)
+                    let mut p_ = vec![0i64; n];
+                    p_[e] = spec::modq(-c * r_);
+                    p_[e + t] = spec::modq(p_[e + t] + c);
+                    let mut other = vec![0i64; n];
+                    for x in other.iter_mut().take(1 + rng.gen_range(0..n)) {
+                        *x = rng.gen_range(0..Q);
+                    }
+                    check_pair(&p_, &other, &format!("tower binomial c x^{} (x^{} - r)", e, t), rep);
+                    // the same plus a dense polynomial that vanishes nowhere in particular times the
+                    // sibling factor (x^t + r): the rest of the spectrum is arbitrary
+                    let dense: Vec<i64> = (0..n).map(|_| rng.gen_range(0..Q)).collect();
+                    let mut sib = vec![0i64; n];
+                    sib[0] = r_;
+                    sib[t % n] = spec::modq(sib[t % n] + 1);
+                    let mut both = vec![0i64; n];
+                    both[0] = spec::modq(-r_);
+                    both[t % n] = spec::modq(both[t % n] + 1);
+                    // (x^t - r)(x^t + r) * dense vanishes on both blocks; adding p leaves block r
+                    // zero and block -r equal to 2 r c x^e
+                    let fill = spec::negamul_mod(&spec::negamul_mod(&sib, &both), &dense);
+                    let q2: Vec<i64> = (0..n).map(|i| spec::modq(p_[i] + fill[i])).collect();
+                    check_pair(&q2, &other, &format!("tower binomial c x^{} (x^{} - r) + (x^{} - r^2) * dense", e, t, 2 * t), rep);
+                    rep.count("tower_binomial_inputs", 2);
+                }
+            }
+            t *= 2;
+        }
+    });
+    rep.merge(r);
+    rep.require("tower_binomial_inputs", 1000);
     rep.require("inverse_sizes", 10);
     rep.require("sparse_forward_transforms", 10_000);
     rep.sample(json!({"what": "intt on block-structured transform-domain vectors", "block_sizes": [2, 4, 8, 16, 32, 64, 128], "oracle": "linearity against impulse responses + round trip"}));
